@@ -104,6 +104,10 @@ SITES = {
    [r"s\.stopFlag\.Store\(true\)", r"s\.WaitWhileSearching\(\)"], []),
   ("infinite_waits_for_stop", "internal/search/search.go", r"func \(s \*Search\) run\(",
    [r"for !s\.stopFlag\.Load\(\) && \(s\.searchLimits\.Ponder \|\| s\.searchLimits\.Infinite\)\s*\{\s*time\.Sleep"], []),
+  ("node_limit_is_not_a_stop_request", "internal/search/search.go", r"func \(s \*Search\) stopConditions\(",
+   [r"if s\.stopFlag\.Load\(\)\s*\{\s*return true\s*\}", r"if s\.searchLimits\.Nodes > 0 && s\.nodesVisited >= s\.searchLimits\.Nodes\s*\{\s*return true\s*\}", r"return false"], [r"\.Store\("]),
+  ("no_timer_for_ponder_or_infinite", "internal/search/search.go", r"func \(s \*Search\) run\(",
+   [r"if s\.searchLimits\.TimeControl && !s\.searchLimits\.Ponder && !s\.searchLimits\.Infinite\s*\{\s*s\.startTimer\(\)"], []),
   ("uci_output_serialised", "internal/uci/uci.go", r"func \(u \*UciHandler\) send\(",
    [r"u\.sendLock\.Lock\(\)", r"defer u\.sendLock\.Unlock\(\)", r"u\.OutIo\.WriteString", r"u\.OutIo\.Flush\(\)"], []),
   ("time_limits_atomic", "internal/search/search.go", r"func \(s \*Search\) loadTimeLimit\(",
